@@ -82,9 +82,9 @@ func (eng *Engine) mapHeapsEff(mt *types.Map, out map[string]bool, both bool) {
 	out[mapHasHeap(mt)] = true
 	eng.noteHeap(mapHasHeap(mt), "maphas", mt.Key(), nil)
 	eng.noteHeap(mapValHeap(mt), "mapval", mt.Key(), mt.Elem())
-	if both {
-		out[mapValHeap(mt)] = true
-	}
+	// make, update and delete all write the value heap too (canonical form: zero value at absent keys)
+	_ = both
+	out[mapValHeap(mt)] = true
 }
 
 func (eng *Engine) cellHeaps(t types.Type, out map[string]bool) {
@@ -448,6 +448,15 @@ func (eng *Engine) contractEffects(ct *Contract, fn *ssa.Function, sig *types.Si
 				if i < len(names) {
 					names[i] = n
 				}
+			}
+		}
+	}
+	if fn != nil {
+		// closures: captured variables are visible to the contract under their names
+		for _, fv := range fn.FreeVars {
+			if et := deref(fv.Type()); et != nil {
+				names = append(names, fv.Name())
+				ts = append(ts, et)
 			}
 		}
 	}
